@@ -5,13 +5,13 @@ package main
 // z3-new 5.1.0 and cvc5 and takes the first definitive answer.
 
 import (
-	"runtime"
 	"bytes"
 	"context"
 	"fmt"
 	"os"
 	"os/exec"
 	"path/filepath"
+	"runtime"
 	"strings"
 	"sync"
 	"time"
@@ -26,11 +26,12 @@ type SolveResult struct {
 }
 
 type solverSpec struct {
-	name   string
-	bin    string
-	args   func(timeoutS int) []string
-	prefix string
-	lambda bool // understands z3 lambda / as-array terms
+	name    string
+	bin     string
+	args    func(timeoutS int) []string
+	variant bool // another configuration of a solver listed before (not an independent second opinion)
+	prefix  string
+	lambda  bool // understands z3 lambda / as-array terms
 }
 
 var solvers = []solverSpec{
@@ -38,6 +39,14 @@ var solvers = []solverSpec{
 	{name: "z3-4.8.12", bin: "z3", args: func(t int) []string { return []string{fmt.Sprintf("-T:%d", t)} }, lambda: true},
 	{name: "cvc5-1.0", bin: "cvc5", args: func(t int) []string { return []string{fmt.Sprintf("--tlimit=%d", t*1000)} },
 		prefix: "(set-option :produce-models true)\n(set-logic ALL)\n"},
+	// the same solver with other random seeds: solver times on the larger VCs
+	// vary a lot from run to run; a small portfolio makes the race robust
+	{name: "z3-5.1.0/seed7", bin: "z3-new", args: func(t int) []string {
+		return []string{fmt.Sprintf("-T:%d", t), "smt.random_seed=7", "sat.random_seed=7"}
+	}, lambda: true, variant: true},
+	{name: "z3-5.1.0/seed13", bin: "z3-new", args: func(t int) []string {
+		return []string{fmt.Sprintf("-T:%d", t), "smt.random_seed=13", "sat.random_seed=13", "smt.arith.random_initial_value=true"}
+	}, lambda: true, variant: true},
 }
 
 var procSlots = make(chan struct{}, runtime.NumCPU())
@@ -214,7 +223,7 @@ func Solve(script string, probes []string, timeoutS int, usesLambda bool) SolveR
 			best = x
 		}
 	}
-	best.Solver = "race(z3-5.1.0,z3-4.8.12,cvc5-1.0)"
+	best.Solver = "race(z3-5.1.0 x3 seeds,z3-4.8.12,cvc5-1.0)"
 	return best
 }
 
@@ -223,7 +232,7 @@ func Solve(script string, probes []string, timeoutS int, usesLambda bool) SolveR
 // is a disagreement (a tool error, never a pass).
 func CrossCheck(script string, first string, usesLambda bool, timeoutS int) (string, string) {
 	for _, sp := range solvers {
-		if strings.HasPrefix(first, sp.name) {
+		if strings.HasPrefix(first, sp.name) || sp.variant || (strings.HasPrefix(first, "z3-5.1.0") && sp.bin == "z3-new") {
 			continue
 		}
 		if usesLambda && !sp.lambda {
